@@ -349,6 +349,17 @@ func (gen *Generator) GenerateDefmac(args []Sexp, orig Sexp) error {
 	if err != nil {
 		return err
 	}
+	// a macro's parameters are bound to the argument FORMS. The
+	// parameter binding of functions takes the value of a dot path
+	// (h.x); for a macro that evaluated the argument at expansion time,
+	// so (defmac setit [v] ^(set ~v 7)) (setit h.x) expanded to (set 1 7).
+	for i := 1; i < len(sfun.fun); i++ {
+		bind, isBind := sfun.fun[i].(PopStackPutEnvInstr)
+		if !isBind {
+			break
+		}
+		sfun.fun[i] = BindFormInstr{bind.sym}
+	}
 
 	gen.env.macros[sym.number] = sfun
 	gen.AddInstruction(PushInstr{SexpNull})
